@@ -339,6 +339,10 @@ func commaLed(p *parser, t *token, left *token) *token {
 }
 
 func getType(p *parser) *token {
+	if p.nest++; p.nest > maxDepth { // *, [] and map nest types
+		panicf("nested too deeply")
+	}
+	defer func() { p.nest-- }()
 	t := p.Token
 	p.Next()
 	switch t.Symbol {
